@@ -70,15 +70,17 @@ CHECKS['C15'] = {'pkg': 'cobalt',
                  "the recorded workloads fit the node's capacity (per core, per NUMA node, memory)"]}
 
 CHECKS['C32'] = {'pkg': 'cobalt',
- 'tests': [{'name': 'TestC32', 'quick': 5000, 'thorough': 2000000}, {'name': 'TestC32History', 'quick': 800, 'thorough': 300000}],
+ 'tests': [{'name': 'TestC32', 'quick': 5000, 'thorough': 2000000}, {'name': 'TestC32History', 'quick': 800, 'thorough': 300000},
+           {'name': 'TestC32World', 'quick': 160, 'thorough': 24000, 'pkg': 'cluster', 'shrinktime': '30s'}],
  'level': 'exploration',
  'technique': 'property-based testing (rapid): Manager.Remap on generated consistent node states (TestC32) and at the end of generated '
-              'alloc/realloc(bind,unbind)/release/rollback histories (TestC32History) against a reference pool computed by the harness',
+              'alloc/realloc(bind,unbind)/release/rollback histories (TestC32History) against a reference pool computed by the harness; TestC32World follows '
+              'the answer to the containers of the fake engine on the un-mocked cluster after a generated change of binding, with one injected engine refusal',
  'rule': 'TestC32: 0-6 workloads (bound/NUMA-bound/unbound) whose sum (+ optional unlisted usage) is the node usage; TestC32History: C08 scripts, pool from '
          'the harness model of live workloads; non-trivial = >= 1 bound and >= 1 unbound workload and a pool that is a strict subset of the cores; distinct by '
-         'hash of the case',
- 'level_text': 'Random search with a reference computation of the pool; checks the answer of the resource manager (what calcium pushes to the engine), not the '
-               'engine update itself.',
+         'hash of the case; TestC32World: non-trivial = the pool changed and >= 2 unbound workloads',
+ 'level_text': 'Random search with a reference computation of the pool; checks the answer of the resource manager and (TestC32World) the parameters that '
+               'reached the fake engine, where one refused update may leave at most that one workload stale.',
  'level_note': 'Trusted: rapid, embedded etcd, the C08 model for the history variant (cases with a bookkeeping violation are skipped there and reported by '
                'C08).',
  'design_ref': 'DESIGN.md §4 C32',
